@@ -179,6 +179,7 @@ impl Unifiable {
                         None
                     },
                     Unifiable::LogicVar{id: _, name: _} => { other.unify(&self, ss) },
+                    Unifiable::SFunction{name: _, terms: _} => { other.unify(&self, ss) },
                     Unifiable::Anonymous => { return Some(Rc::clone(ss)); },
                     _ => None,
                 }
@@ -190,6 +191,7 @@ impl Unifiable {
                         None
                     },
                     Unifiable::LogicVar{id: _, name: _} => { other.unify(&self, ss) },
+                    Unifiable::SFunction{name: _, terms: _} => { other.unify(&self, ss) },
                     Unifiable::Anonymous => { return Some(Rc::clone(ss)); },
                     _ => None,
                 }
@@ -201,6 +203,7 @@ impl Unifiable {
                         None
                     },
                     Unifiable::LogicVar{id: _, name: _} => { other.unify(&self, ss) },
+                    Unifiable::SFunction{name: _, terms: _} => { other.unify(&self, ss) },
                     Unifiable::Anonymous => { return Some(Rc::clone(ss)); },
                     _ => None,
                 }
@@ -298,6 +301,9 @@ impl Unifiable {
                     Unifiable::LogicVar{id: _, name: _} => {
                         return other.unify(self, ss);
                     },
+                    Unifiable::SFunction{name: _, terms: _} => {
+                        return other.unify(self, ss);
+                    },
                     Unifiable::Anonymous => { return Some(Rc::clone(ss)); },
                     _ => None,
                 }
@@ -369,6 +375,9 @@ impl Unifiable {
 
                     }, // SLinkedList
                     Unifiable::LogicVar{id: _, name: _} => {
+                        return other.unify(self, ss);
+                    },
+                    Unifiable::SFunction{name: _, terms: _} => {
                         return other.unify(self, ss);
                     },
                     Unifiable::Anonymous => { return Some(Rc::clone(ss)); },
